@@ -167,7 +167,10 @@ def _run_proc(binary, mode, infile, outfile, opts, timeout, mem_gb, env_extra, a
             timeout=timeout,
             preexec_fn=None if asan_like else _limits(mem_gb, cpu_s),
         )
-        return p.returncode, p.stderr.decode("utf-8", "replace")[-6000:]
+        err = p.stderr.decode("utf-8", "replace")
+        if len(err) > 9000:
+            err = err[:2500] + "\n[...]\n" + err[-6000:]  # sanitizer reports put the verdict line first
+        return p.returncode, err
     except subprocess.TimeoutExpired as e:
         err = (e.stderr or b"").decode("utf-8", "replace")[-2000:]
         return "timeout", err
@@ -275,14 +278,14 @@ def run_cases(
                     evs.update(res2)
                     inconc.append({"id": bad, "why": "runner died (%r) in batch but case passes alone" % (rc,), "stderr": err[-1500:]})
                     continue
-                confirmed = {"rc": rc2, "stderr": err2[-3000:]}
+                confirmed = {"rc": rc2, "stderr": err2[:1500] + err2[-3000:] if len(err2) > 4500 else err2}
                 if rc2 == "timeout":
                     inconc.append({"id": bad, "why": "timeout alone (%ss)" % per_case_timeout})
                     continue
                 if _is_oom(rc2, err2):
                     inconc.append({"id": bad, "why": "allocation failure / address-space limit", "stderr": err2[-500:]})
                     continue
-            crashes.append({"id": bad, "rc": rc, "stderr": err[-3000:], "confirm": confirmed, "case": culprit})
+            crashes.append({"id": bad, "rc": rc, "stderr": err[:1500] + err[-3000:] if len(err) > 4500 else err, "confirm": confirmed, "case": culprit})
         return evs, crashes, inconc
 
     with ThreadPoolExecutor(max_workers=min(shards, NCPU)) as ex:
